@@ -65,6 +65,17 @@ Definition le64 (b : bytes) : res N :=
   else Ok (nth 0 b 0 + 256 * nth 1 b 0 + 65536 * nth 2 b 0 + 16777216 * nth 3 b 0
            + 4294967296 * (nth 4 b 0 + 256 * nth 5 b 0 + 65536 * nth 6 b 0 + 16777216 * nth 7 b 0)).
 
+(* binary.BigEndian.Uint16/32/64(b): the same bounds hints *)
+Definition be16 (b : bytes) : res N :=
+  if glen b <? 2 then Panic else Ok (256 * nth 0 b 0 + nth 1 b 0).
+Definition be32 (b : bytes) : res N :=
+  if glen b <? 4 then Panic
+  else Ok (16777216 * nth 0 b 0 + 65536 * nth 1 b 0 + 256 * nth 2 b 0 + nth 3 b 0).
+Definition be64 (b : bytes) : res N :=
+  if glen b <? 8 then Panic
+  else Ok (4294967296 * (16777216 * nth 0 b 0 + 65536 * nth 1 b 0 + 256 * nth 2 b 0 + nth 3 b 0)
+           + (16777216 * nth 4 b 0 + 65536 * nth 5 b 0 + 256 * nth 6 b 0 + nth 7 b 0)).
+
 (* binary.LittleEndian.PutUint16 / AppendUint32 on a value already converted
    to the fixed-width type (the conversion uint16(x) / uint32(x) is the mod) *)
 Definition put16 (x : N) : bytes := [x mod 256; (x / 256) mod 256].
